@@ -1016,7 +1016,15 @@ func checkCloseIsBarrier(c *Ctx, rule string) {
 			continue
 		}
 		n++
-		if reachAvoiding(d.disp, s, isHead, isWait) {
+		// one search from the CLOSE arm through the hand-off to the next receive, so that what the path knows about
+		// the request's kind (a mode variable set in the arm, say) still holds after the hand-off
+		isS := func(in ssa.Instruction) bool { return in == ssa.Instruction(s) }
+		if reachStaged(body, []func(ssa.Instruction) bool{isS, isHead}, func(in ssa.Instruction, k int) bool {
+			if k == 0 {
+				return isHead(in)
+			}
+			return isWait(in)
+		}) {
 			good = false
 			where = s
 		}
